@@ -1,6 +1,6 @@
 (* C08 - Position independence under module relocation (theorem) and stack relocation (theorem for
    every cached rule of both architectures and for walks over rules; oracle for the rest). *)
-From FH Require Import Consts Word X86 A64 Unwinder X86Unw A64Unw ModFacts RelocFacts ShiftFacts ShiftFrame ShiftWalk MachoWf DwarfRow Cfi X86Dwarf DwarfCb Macho MachoCb.
+From FH Require Import Consts Word X86 A64 Unwinder X86Unw A64Unw ModFacts RelocFacts ShiftFacts ShiftFrame ShiftStatic ShiftWalk MachoWf HistFacts StaticFacts Pe DwarfRow Cfi X86Dwarf DwarfCb Macho MachoCb.
 Open Scope N_scope.
 
 (* [moved d md]: the same module mapped d bytes higher - range and base address moved together,
@@ -160,8 +160,30 @@ Theorem C08_compressible_row_ignores_the_stack : forall f svma first rg rg' m m'
 Proof. exact with_fde_rel. Qed.
 Print Assumptions C08_compressible_row_ignores_the_stack.
 
-(* a whole walk through the iterator WITH its cache (x86_64): an unwinder all of whose modules answer with rules
-   (no data; DWARF whose rows compress; Mach-O entries that do not defer to DWARF), a cache that holds well-formed
+(* The callback premise in general: the static classification of the callbacks (StaticFacts.v; the one C06 and C20
+   rest on) says for (module, role, relative address) whether the answer is a rule, a state-independent error or a
+   state-dependent evaluation.  In the first two cases - every format: PE steps that compress into the pop rule,
+   compact-unwind entries incl. those that defer to DWARF rows that compress - the relocated state is answered the
+   same way. *)
+Theorem C08_callback_static_x86 : forall lo hi s (md : xmodule) first rel rg rg' m,
+  static_ok_x86 md first rel -> rrel lo hi s rg rg' -> vok lo hi s rg -> spok lo hi rg ->
+  cb_rel lo hi s (cb_x86 md first rel rg m) (cb_x86 md first rel rg' (shm lo hi s m)).
+Proof. exact cb_rel_static. Qed.
+Print Assumptions C08_callback_static_x86.
+Theorem C08_callback_static_a64 : forall lo hi s k (md : amodule) first rel rg rg' m,
+  static_ok_a64 md first rel -> arel lo hi s k rg rg' -> avok lo hi s k rg -> aspok lo s rg ->
+  cb_rel_a lo hi s k (cb_a64 md first rel rg m) (cb_a64 md first rel rg' (shm lo hi s m)).
+Proof. exact cb_rel_a_static. Qed.
+Print Assumptions C08_callback_static_a64.
+(* e.g. a PE function with two pushes and an allocation, stopped in its body: the cached pop rule *)
+Example C08_static_pe_example :
+  let ui := mkui None 0 [(6, UAlloc 32); (2, UPop 3); (1, UPop 5)] None in
+  let pe := mkpe [mkrt 4096 4200 12288] [(12288, Some ui)] None in
+  static_ok_x86 (mkmod 65536 131072 65536 0 (MPe pe)) false 4150.
+Proof. vm_compute. reflexivity. Qed.
+
+(* a whole walk through the iterator WITH its cache (x86_64): an unwinder whose callbacks are static in the sense above for every
+   address (no data; DWARF whose rows compress; compact unwind; PE steps that compress), a cache that holds well-formed
    rules (every cache that only such unwinders filled: the invariant is part of the induction).  As long as the
    frames reported so far are code addresses (not words that point into the stack), the relocated walk reports the
    same frames, ends the same way (a read error names the moved address) and leaves the SAME cache. *)
@@ -175,6 +197,20 @@ Theorem C08_stack_relocated_x86_iter : forall lo hi s,
 Proof. exact iter_run_x_stack_shift. Qed.
 Print Assumptions C08_stack_relocated_x86_iter.
 Check walk_premises_hold.
+
+(* the same on aarch64, with one more premise: rules that take the return address from lr read no memory, so that the
+   sp of every state of the ORIGINAL walk lies in the stack is asked of the walk ([sp_ok_run]) rather than derived *)
+Theorem C08_stack_relocated_a64_iter : forall lo hi s,
+  2 * DIST <= lo -> lo <= hi -> hi + s + 2 * DIST < W64 ->
+  forall k, (forall v, v <= hi + s -> strip k v = v) ->
+  forall (u : aunwinder) m, mem_ok_a lo hi s k m -> aunw_rule_only u -> forall n it it',
+  ait_rel lo hi s k it it' -> sp_ok_run lo s u m it n ->
+  Forall (agood lo hi) (removelast (fst (iter_run_a u m it n))) ->
+  Forall2 (aires_rel lo hi s) (fst (iter_run_a u m it n)) (fst (iter_run_a u (shm lo hi s m) it' n)) /\
+  i_cache _ _ (snd (iter_run_a u (shm lo hi s m) it' n)) = i_cache _ _ (snd (iter_run_a u m it n)).
+Proof. exact iter_run_a_stack_shift. Qed.
+Print Assumptions C08_stack_relocated_a64_iter.
+Check walk_a_premises_hold.
 
 (* the premises are satisfiable by a real-looking two-frame stack moved by 4 GiB *)
 Check shift_premises_hold.
